@@ -44,7 +44,7 @@ TECHNIQUE = "runtime purity monitor (argument digests before/after every tapped 
 FLOORS = {
     "quick": {"eval:purity": 20000, "eval:repeat": 85, "eval:readonly": 85, "eval:history": 28, "eval:clone": 18, "eval:unfitted": 9,
               "eval:rejection": 250, "eval:aliasing": 20, "eval:stale_state": 75, "eval:result_ownership": 40, "eval:reconfigure": 85, "eval:error_path": 30, "distinct_nontrivial": 5000},
-    "thorough": {"eval:purity": 600000, "eval:repeat": 3800, "eval:readonly": 3800, "eval:history": 1100, "eval:clone": 750, "eval:rejection": 10000,
+    "thorough": {"eval:purity": 600000, "eval:repeat": 2800, "eval:readonly": 2800, "eval:history": 1100, "eval:clone": 750, "eval:rejection": 8000,
                  "eval:aliasing": 750, "distinct_nontrivial": 100000},
 }
 JOBS = {"quick": 1, "thorough": 16}
@@ -54,7 +54,7 @@ CASE_TIMEOUT_S = 1200
 def plan(tier):
     if tier == "quick":
         return collections.OrderedDict(specs=2, history=6, clone=4, unfitted=1, rejection=3, aliasing=6, reconfigure=4, borrowed=8)
-    return collections.OrderedDict(specs=100, history=240, clone=160, unfitted=20, rejection=120, aliasing=240, reconfigure=240, borrowed=200, ambient=17)
+    return collections.OrderedDict(specs=70, history=240, clone=160, unfitted=20, rejection=100, aliasing=240, reconfigure=160, borrowed=120, ambient=17)
 
 
 # ----------------------------------------------------------------------
@@ -102,7 +102,10 @@ def _arg_digests(ev):
     out = {}
     for name, value in ev.args.items():
         key = "self.params" if name == "self" else name
-        out[key] = core.digest(_strip(value, fitted=(name != "self")))
+        # estimators handed to cross_val_score must come back untouched, fitted state included (C12 states it; a serial path that
+        # fits the caller's object also makes later calls history-dependent). Elsewhere only constructor parameters and other
+        # non-fitted attributes are compared: project_grid(method=<gridder>) and Chain / Vector legitimately fit what they are given.
+        out[key] = core.digest(_strip(value, fitted=(name == "estimator" and ev.name == "cross_val_score")))
     return out
 
 
